@@ -220,7 +220,7 @@ def c19(tier):
                             bounds={"list state": "size %d, capacity %d, element texts symbolic" % (p, cap),
                                     "operation": "%s at index %d" % (["insert", "set", "take", "drop", "self-set", "get"][op], idx)},
                             note="one list operation from an arbitrary state of this shape vs array model (inductive step)"))
-    for shape in (0, 1, 2, 4, 5, 6):   # 3 (number) and 7 (table{a:list}) give no verdict in 240 s: not claimed
+    for shape in (0, 1, 2, 4, 5, 6, 8, 9):   # 3 (number via parse_numb) and 7 (table{a:list}) give no verdict in 240 s: not claimed; 8 / 9 = number state constructed directly
         exist = [None] + ([4, 5] if tier != "quick" or shape in (0, 4) else [])
         for ex, which in [(e, w) for e in exist for w in (range(5) if shape == 4 else range(4))]:       # which 4: grow the cloned list
             d = {"SHAPE": shape, "WHICH": which, "NORM_SINGLETONS": None}      # table key U+212B: normalised form differs from the spelling entered
@@ -230,7 +230,7 @@ def c19(tier):
                         libtus=["value.c", "map.c", "packet.c", "utils.c"], unwind=6,
                         unwindset=[e.replace(":2", ":4") for e in VAL_REC] + ["memcmp.*:8"], mode="safety", replay_libs=ICU_LIBS,
                         native_extra=["stubs/icu_norm_cheap.c"], object_bits=10, group="h19_clone", timeout=600 if tier != "quick" else None,
-                        bounds={"shape": ["char", "unknown", "n/a", "number", "list[char,n/a]", "table{a:char}", "list[list[char]]", "table{a:list[char]}"][shape],
+                        bounds={"shape": ["char", "unknown", "n/a", "number", "list[char,n/a]", "table{a:char}", "list[list[char]]", "table{a:list[char]}", "number with uncertainty (arbitrary state)", "list[number with uncertainty]"][shape],
                                 "contents": "texts of <= 2 units, quoted flag, digits symbolic", "target": "new object" if ex is None else "existing value of shape %d" % ex,
                                 "then": ["free original", "free clone", "re-init clone", "re-init original", "extend the clone"][which]},
                         note="clone: deep equality, no sharing, independence under release / re-initialisation, no leak"))
@@ -843,25 +843,30 @@ def write_queries(tier, version, prefix):
         shapes = {0: "[ ]", 1: "[ a b ]", 2: "[ [ a ] ? . 1.5 ]", 3: "{ 'k':a }", 4: "{ 'k':1.5 }", 5: "{ 'k':{ 'q2':a } }", 6: "{ 'k':[ a ] }", 7: "{ 'k':? }", 8: "[ { 'k':a } b ]", 9: "1.5"}   # 5 and 6 are skipped below
         # (element length, key length, line limit): long leaves at limit 20; key-length boundaries at limit 8 (long keys make the
         # normalisation of the key during the build of the table dominate: key of 12 at limit 20 gave no verdict in 600 s)
-        lens = [(2, 2, 20), (17, 2, 20), (2, 3, 8), (2, 4, 8)] if tier == "quick" else [(2, 2, 20), (17, 2, 20), (20, 2, 20), (2, 2, 8), (2, 3, 8), (2, 4, 8), (2, 5, 8), (5, 3, 8)]
+        lens = [(2, 2, 20, 1), (17, 2, 20, 1), (2, 3, 8, 1), (2, 4, 8, 1)] if tier == "quick" else [(2, 2, 20, 1), (17, 2, 20, 1), (20, 2, 20, 1), (2, 2, 8, 1), (2, 3, 8, 1), (2, 4, 8, 1), (2, 5, 8, 1), (5, 3, 8, 1)]
+        # key presented with a triple delimiter (kd = 3), and keys that fill a line by themselves so that the colon can never follow
+        # (6 + 2 = 8, 6 + 6 = 12: the table must be refused with CIF_DISALLOWED_VALUE); table shapes only
+        lens += [(2, 2, 12, 3), (2, 6, 12, 3), (2, 6, 8, 1)] if tier == "quick" else [(2, 2, 12, 3), (2, 3, 12, 3), (2, 5, 12, 3), (2, 6, 12, 3), (2, 6, 8, 1), (2, 7, 8, 1), (2, 2, 20, 3)]
         for sh, desc in shapes.items():
-            for (el, kl, WL) in lens:
-                if sh in (0, 9) and (el, kl, WL) != (2, 2, 20):
+            for (el, kl, WL, kd) in lens:
+                if sh in (0, 9) and (el, kl, WL, kd) != (2, 2, 20, 1):
                     continue
-                if sh in (0, 1, 2, 9) and (kl != 2 or WL != 20):
+                if sh in (0, 1, 2, 9) and (kl != 2 or WL != 20 or kd != 1):
+                    continue
+                if kd == 3 and sh == 8 and WL != 20:
                     continue
                 if sh in (5, 6):
                     continue            # a table or list nested inside a table: engine error / no verdict after 15-20 min in either tier - not claimed
                 if sh == 8 and WL != 20:
                     continue
-                sm = desc.count("a") * el + desc.count("b") * el + desc.count("'k'") * (kl + 3) + 3 * len(desc.split()) + 16
-                qs.append(Q("%s_struct_S%d_E%d_K%d_L%d" % (prefix, sh, el, kl, WL), "h02_struct.c", defs={"SSHAPE": sh, "ELEN": el, "KEYLEN": kl, "CIF_API_VERIF_LINE_LENGTH": WL, "SINK_MAX": sm},
+                sm = desc.count("a") * el + desc.count("b") * el + desc.count("'k'") * (kl + 2 * kd + 1) + 3 * len(desc.split()) + 16
+                qs.append(Q("%s_struct_S%d_E%d_K%d_L%d%s" % (prefix, sh, el, kl, WL, "_D3" if kd == 3 else ""), "h02_struct.c", defs={"SSHAPE": sh, "ELEN": el, "KEYLEN": kl, "KEYDELIM": kd, "CIF_API_VERIF_LINE_LENGTH": WL, "SINK_MAX": sm},
                             extra=ICU_NORM_CHEAP + ["stubs/ustdio_sink.c"], libtus=["ciffile.c", "utils.c", "value.c", "map.c", "packet.c"], remove=[("ciffile.c", "__CPROVER_file_local_ciffile_c_write_char")],
                             gen=gen_write_ctx, unwind=max(kl, 3) + 3, unwindset=VAL_REC + ["harness.*:%d" % (sm + 2), "word.*:%d" % (el + 2), "ex_word.*:%d" % (el + 2), "__CPROVER_file_local_ciffile_c_write_char.*:%d" % (max(el, kl) + 2), "u_fprintf.*:26", "strlen.*:12", "memcmp.*:%d" % (2 * kl + 4), "u_strlen.*:%d" % (max(el, kl) + 2), "u_strcpy.*:%d" % (max(el, kl) + 2), "u_strncpy.*:%d" % (max(el, kl) + 2), "u_countChar32.*:%d" % (max(el, kl) + 2),
                                                                             "__CPROVER_file_local_ciffile_c_write_item:4", "__CPROVER_file_local_ciffile_c_write_list:3", "__CPROVER_file_local_ciffile_c_write_table:3"],
                             mode="func", replay_libs=ICU_LIBS, native_extra=["stubs/icu_norm_cheap.c", "stubs/ustdio_sink.c"], uthash="model", mem_gb=8, object_bits=10,
-                            timeout=600 if tier == "quick" else 2400, kf=["NUMBER_AFTER_KEY_NOWRAP"],
-                            bounds={"entry": "write_item", "value shape": desc, "leaf texts": "words of %d characters, key of %d" % (el, kl), "start column": "0..%d symbolic" % WL, "CIF_LINE_LENGTH": WL},
+                            timeout=600 if tier == "quick" else 2400, kf=["NUMBER_AFTER_KEY_NOWRAP", "TABLE_KEY_COLON_NO_ROOM"],
+                            bounds={"entry": "write_item", "value shape": desc, "leaf texts": "words of %d characters, key of %d presented with %d delimiter character(s) on each side" % (el, kl, kd), "start column": "0..%d symbolic" % WL, "CIF_LINE_LENGTH": WL},
                             note="write_item / write_list / write_table / write_numb with write_char = stub behaving as the writers were shown to; output split into tokens"))
     return qs
 
